@@ -204,6 +204,10 @@ class Functional(Operator):
         -------
         derivative : `Operator`
         """
+        if self.is_linear:
+            # Also covers functionals on a field, whose gradient values are
+            # plain numbers without ``T``
+            return self
         return self.gradient(point).T
 
     def translated(self, shift):
